@@ -542,6 +542,9 @@ type Contract struct {
 	Abstract bool // unmodelled instructions / callees are abstracted by havoc
 	Binds    []BindDecl
 	ReadonlyWhen []Clause
+	// Params: 'params a, b' on a closure contract: the closure's parameter names. When the closure numbered in the
+	// contract's name no longer has them (a closure was added or removed before it) the sibling that has them is meant.
+	Params []string
 	// Exits: 'exit assert [l] e' - checked at every return like an ensures clause, but not part of the interface: it may
 	// name the function's local variables (in scope at that return); callers do not see it
 	Exits []Clause
@@ -650,7 +653,7 @@ type SpecFile struct {
 var directiveWords = map[string]bool{
 	"func": true, "requires": true, "ensures": true, "modifies": true, "loop": true, "pred": true, "fun": true,
 	"ufun": true, "axiom": true, "lemma": true, "pure": true, "check": true, "immutable": true, "trusted": true,
-	"inline": true, "package": true, "allocates": true, "pureparam": true, "denotes": true, "assert": true, "guarded_by": true, "havocs": true, "opaque": true, "reads": true, "call": true, "readonly": true, "lockonly": true, "abstract": true, "binds": true, "apply": true, "exit": true,
+	"inline": true, "package": true, "allocates": true, "pureparam": true, "denotes": true, "assert": true, "guarded_by": true, "havocs": true, "opaque": true, "reads": true, "call": true, "readonly": true, "lockonly": true, "abstract": true, "binds": true, "apply": true, "exit": true, "params": true,
 }
 
 // parseSpecText parses the joined text of //@ lines. lines carries (text,lineNo).
@@ -901,6 +904,15 @@ func parseSpecLines(file string, pkg string, lines []specLine) (*SpecFile, error
 				return nil, errf("abstract outside func")
 			}
 			cur.Abstract = true
+		case "params":
+			if cur == nil {
+				return nil, errf("params outside func")
+			}
+			for _, it := range strings.Split(d.text, ",") {
+				if it = strings.TrimSpace(it); it != "" {
+					cur.Params = append(cur.Params, it)
+				}
+			}
 		case "exit":
 			if cur == nil {
 				return nil, errf("exit outside func")
